@@ -49,6 +49,34 @@ def buf_bytes(b):
   return None if b.data is None else bytes(np.asarray(b.data, dtype=np.uint8).tobytes())
 
 
+def to_external(mb):
+  """the SAME float model in external-buffer form (the form a float model above
+  2 GB necessarily has): every non-empty constant moved behind the flatbuffer at
+  a 16-aligned offset.  Written here, independently of the library's serialiser."""
+  m = og.read(mb)
+  datas = {}
+  for i, b in enumerate(m.buffers):
+    if i and b.data is not None and len(b.data):
+      datas[i] = bytes(np.asarray(b.data, dtype=np.uint8).tobytes())
+      b.data = None
+      b.offset = 2               # any non-default value: fixed-width field
+      b.size = len(datas[i])
+  fb = bytes(FU.convert_object_to_bytearray(m))
+  base = pad16(len(fb))
+  off = base
+  for i in sorted(datas):
+    m.buffers[i].offset = off
+    off = pad16(off + len(datas[i]))
+  fb2 = bytes(FU.convert_object_to_bytearray(m))
+  if len(fb2) != len(fb):
+    raise RuntimeError('external form: encodings differ in length')
+  out = bytearray(fb2) + bytes(base - len(fb2))
+  for i in sorted(datas):
+    out += datas[i]
+    out += bytes(pad16(len(out)) - len(out))
+  return bytes(out)
+
+
 def quantize_both(mb, setup, stats, prev=None):
   """the same quantization through the ordinary and the large-model path.
   With [prev] (a recipe list), the large-path Quantizer has ALREADY been used:
@@ -263,13 +291,23 @@ def main():
     stats = gr.own_stats(mb, data) if probe.need_calibration else None
     dist['cases'] += 1
     inp = {'recipe': desc, 'model_hex': mb.hex() if len(mb) < 30000 else None}
+    mb_in = mb
+    if not from_corpus and rng.random() < 0.3:
+      # the float INPUT is itself in external-buffer form (untouched constants reach
+      # the serialiser as raw bytes, not numpy arrays)
+      try:
+        mb_in = to_external(mb)
+        dist['external_form_input'] += 1
+        inp = dict(inp, input_form='external (corr_serial.to_external of model_hex)')
+      except Exception:  # pylint: disable=broad-except
+        mb_in = mb
     try:
       prev = None
       if rng.random() < 0.4:       # the large-path Quantizer was used before, with another float recipe
         prev = copy.deepcopy(ship[rng.choice(['dynamic_wi8_afp32_recipe', 'default_af32w8float_recipe',
                                                'default_af32w4float_recipe'])])
         dist['reused_quantizer'] += 1
-      small, large = quantize_both(mb, setup, stats, prev)
+      small, large = quantize_both(mb_in, setup, stats, prev)
     except Exception as e:  # pylint: disable=broad-except
       dist['quantize_raises:' + cg.classify_raise(e)] += 1
       continue
